@@ -18,6 +18,44 @@ use vcore::Outcome;
 use crate::mock::{drive, Frag, FragReader, ReadLog, RecWriter};
 
 // ------------------------------------------------------------------------------------------------
+// known findings: shapes that are excluded from generated cases while the finding is listed as
+// `known` (cases with `strict: true`, i.e. the reproduction regressions, are never adjusted)
+
+pub const SIG_LEN_OVERFLOW: &str = "C13/length_delimited/len+lfl-overflow";
+pub const SIG_SINK_FLUSH: &str = "C13/sink/accepted-bytes-not-flushed";
+pub const SIG_CMSG_LARGER: &str = "C13/cmsg/decode-larger-than-payload";
+
+#[derive(Debug, Clone, Copy, Default)]
+pub struct Excl {
+    pub len_overflow: bool,
+    pub sink_flush: bool,
+    pub cmsg_larger: bool,
+}
+
+impl Excl {
+    pub fn from_signatures(known: &std::collections::HashSet<String>) -> Self {
+        Excl { len_overflow: known.contains(SIG_LEN_OVERFLOW), sink_flush: known.contains(SIG_SINK_FLUSH), cmsg_larger: known.contains(SIG_CMSG_LARGER) }
+    }
+
+    /// read `<verif_dir>/known_findings.json` (used by the fuzz target, which has no `Session`)
+    pub fn load(verif_dir: &std::path::Path) -> Self {
+        let mut set = std::collections::HashSet::new();
+        if let Ok(t) = std::fs::read_to_string(verif_dir.join("known_findings.json")) {
+            if let Ok(v) = serde_json::from_str::<serde_json::Value>(&t) {
+                for f in v["findings"].as_array().cloned().unwrap_or_default() {
+                    if f["property"] == "C13" && f["status"] == "known" {
+                        if let Some(s) = f["signature"].as_str() {
+                            set.insert(s.to_string());
+                        }
+                    }
+                }
+            }
+        }
+        Self::from_signatures(&set)
+    }
+}
+
+// ------------------------------------------------------------------------------------------------
 // case types
 
 #[derive(Debug, Clone, Serialize, Deserialize, PartialEq, Eq)]
@@ -119,6 +157,9 @@ pub struct FrameCase {
     /// initial capacities of the read / write buffers given with `with_buffer` (0,0 = default buffers)
     pub rcap: u16,
     pub wcap: u16,
+    /// run exactly as written even if a known finding would exclude this shape
+    #[serde(default)]
+    pub strict: bool,
 }
 
 #[derive(Debug, Clone, Serialize, Deserialize, PartialEq, Eq)]
@@ -134,6 +175,9 @@ pub struct HostileCase {
     pub stream: Vec<u8>,
     pub rsched: Vec<Frag>,
     pub rcap: u16,
+    /// run exactly as written even if a known finding would exclude this shape
+    #[serde(default)]
+    pub strict: bool,
 }
 
 // ------------------------------------------------------------------------------------------------
@@ -172,8 +216,8 @@ pub fn ref_encode(framer: &Framer, payload: &[u8], out: &mut Vec<u8>) -> (Range<
 pub enum RefEnd {
     /// ran out of bytes (a trailing incomplete frame is dropped at EOF)
     Eof,
-    /// a length field whose value + field width does not fit `usize`
-    Overflow,
+    /// a length field (starting at this offset) whose value + field width does not fit `usize`
+    Overflow(usize),
 }
 
 /// Payload ranges a correct decoder finds in `stream`.
@@ -197,7 +241,7 @@ pub fn ref_parse(framer: &Framer, stream: &[u8]) -> (Vec<Range<usize>>, RefEnd) 
                 };
                 let total = len as u128 + w as u128;
                 if total > usize::MAX as u128 {
-                    return (v, RefEnd::Overflow);
+                    return (v, RefEnd::Overflow(pos));
                 }
                 let total = total as usize;
                 if stream.len() - pos < total {
@@ -280,10 +324,7 @@ pub struct SinkPlan<'a> {
 
 pub struct SinkRun {
     pub wire: Vec<u8>,
-    pub held: usize,
     pub last_was_feed: bool,
-    pub shutdowns: usize,
-    pub flushes: usize,
 }
 
 fn encode_all<C, F, T>(codec: C, framer: F, items: Vec<T>, plan: &SinkPlan) -> Result<SinkRun, Outcome>
@@ -300,6 +341,24 @@ where
     }
     let mut last_was_feed = false;
     let n = items.len();
+    // Sink contract: when send / flush / close return Ok, everything accepted so far has been
+    // flushed to the underlying writer
+    let held_check = |after: &str| -> Result<(), Outcome> {
+        let held = wlog.held.borrow().len();
+        if held > 0 {
+            return Err(Outcome::violation(
+                SIG_SINK_FLUSH,
+                format!(
+                    "{after} returned Ok but {held} accepted bytes were never flushed to the (buffering) writer: {} reached the peer, writer saw {} write, {} flush, {} shutdown calls",
+                    wlog.out.borrow().len(),
+                    wlog.writes.get(),
+                    wlog.flushes.get(),
+                    wlog.shutdowns.get()
+                ),
+            ));
+        }
+        Ok(())
+    };
     for (i, item) in items.into_iter().enumerate() {
         let send = plan.send.is_empty() || plan.send[i % plan.send.len()];
         let r = if send { drive(framed.send(item), 100_000) } else { drive(framed.feed(item), 100_000) };
@@ -307,6 +366,9 @@ where
             None => return Err(Outcome::violation("C13/sink/stuck", format!("item {i}/{n}: sink future still pending after 100000 polls with a waking mock"))),
             Some(Err(e)) => return Err(Outcome::violation("C13/sink/error", format!("item {i}/{n}: {e:?}"))),
             Some(Ok(())) => {}
+        }
+        if send {
+            held_check(&format!("send() of item {i}/{n}"))?;
         }
         last_was_feed = !send;
     }
@@ -316,10 +378,20 @@ where
         Some(Err(e)) => return Err(Outcome::violation("C13/sink/error", format!("close/flush: {e:?}"))),
         Some(Ok(())) => {}
     }
+    held_check(if plan.end_close {
+        if last_was_feed {
+            "close() after feed()"
+        } else {
+            "close()"
+        }
+    } else if last_was_feed {
+        "flush() after feed()"
+    } else {
+        "flush()"
+    })?;
     drop(framed);
     let wire = wlog.out.borrow().clone();
-    let held = wlog.held.borrow().len();
-    Ok(SinkRun { wire, held, last_was_feed, shutdowns: wlog.shutdowns.get(), flushes: wlog.flushes.get() })
+    Ok(SinkRun { wire, last_was_feed })
 }
 
 pub enum Got<T> {
@@ -449,9 +521,15 @@ fn hex(b: &[u8]) -> String {
     s
 }
 
-pub fn run_frames(case: &FrameCase) -> Outcome {
+pub fn run_frames(case: &FrameCase, excl: Excl) -> Outcome {
     let framer = &case.framer;
     let mut labels: Vec<String> = vec![format!("framer:{}", framer.name())];
+    let mut lazy = case.lazy;
+    if lazy && excl.sink_flush && !case.strict {
+        // known finding: flush/close while a write is in flight skip the writer's flush/shutdown
+        lazy = false;
+        labels.push("excluded-known:write-behind-writer".into());
+    }
     // ---- effective items (legal domain by construction)
     let mut repaired = 0;
     let eff = match (&case.items, framer) {
@@ -514,7 +592,7 @@ pub fn run_frames(case: &FrameCase) -> Outcome {
     for p in &payloads {
         layout.push(ref_encode(framer, p, &mut want_wire));
     }
-    let plan = SinkPlan { send: &case.send, end_close: case.end_close, wsched: &case.wsched, lazy: case.lazy, rcap: case.rcap, wcap: case.wcap };
+    let plan = SinkPlan { send: &case.send, end_close: case.end_close, wsched: &case.wsched, lazy, rcap: case.rcap, wcap: case.wcap };
     labels.push(match &eff {
         Eff::Bytes(_) => "codec:bytes".into(),
         Eff::Json { pretty: true, .. } => "codec:json-pretty".into(),
@@ -537,27 +615,8 @@ pub fn run_frames(case: &FrameCase) -> Outcome {
         Err(o) => return o,
     };
     let n = payloads.len();
-    if case.lazy {
-        labels.push("writer:lazy".into());
-    }
-    if n > 0 && (sink.held > 0 || sink.wire.len() < want_wire.len()) && sink.wire[..] == want_wire[..sink.wire.len().min(want_wire.len())] && sink.wire.len() < want_wire.len() {
-        // a strict prefix arrived: bytes were accepted by the sink but never pushed to the peer
-        return Outcome::violation(
-            format!(
-                "C13/sink/bytes-not-delivered/{}-after-{}",
-                if case.end_close { "close" } else { "flush" },
-                if sink.last_was_feed { "feed" } else { "send" }
-            ),
-            format!(
-                "{} of {} encoded bytes reached the peer after {}() returned Ok; {} bytes are still held by the (buffering) writer: flush calls {}, shutdown calls {}",
-                sink.wire.len(),
-                want_wire.len(),
-                if case.end_close { "close" } else { "flush" },
-                sink.held,
-                sink.flushes,
-                sink.shutdowns
-            ),
-        );
+    if lazy {
+        labels.push("writer:write-behind".into());
     }
     if sink.wire != want_wire {
         let at = sink.wire.iter().zip(&want_wire).position(|(a, b)| a != b).unwrap_or(sink.wire.len().min(want_wire.len()));
@@ -584,13 +643,15 @@ pub fn run_frames(case: &FrameCase) -> Outcome {
             let run: DecodeRun<Bytes> = with_framer!(framer, |f| decode_all(BytesCodec::new(), f, &wire, &case.rsched, case.rcap));
             let want: Vec<Bytes> = v.iter().map(|p| Bytes::from(p.clone())).collect();
             let r = judge_roundtrip(framer, &run, &want, &wire, |b| hex(b));
-            (run.log.cuts.borrow().clone(), run.log.pendings.get(), r)
+            let cuts = run.log.cuts.borrow().clone();
+            (cuts, run.log.pendings.get(), r)
         }
         Eff::Json { pretty, docs } => {
             let codec = if *pretty { SerdeJsonCodec::pretty() } else { SerdeJsonCodec::new() };
             let run: DecodeRun<Doc> = with_framer!(framer, |f| decode_all(codec, f, &wire, &case.rsched, case.rcap));
             let r = judge_roundtrip(framer, &run, docs, &wire, |d| format!("{d:?}"));
-            (run.log.cuts.borrow().clone(), run.log.pendings.get(), r)
+            let cuts = run.log.cuts.borrow().clone();
+            (cuts, run.log.pendings.get(), r)
         }
     };
     if let Err(o) = ok {
@@ -710,8 +771,6 @@ impl AsBytesMaybe for Doc {
 // ------------------------------------------------------------------------------------------------
 // (iii) hostile input
 
-pub const SIG_LEN_OVERFLOW: &str = "C13/length_delimited/len+lfl-overflow";
-
 enum Want<T> {
     Item(T),
     CodecErr,
@@ -729,7 +788,7 @@ fn judge_hostile<T: PartialEq + Debug + AsBytesMaybe>(
     let run = match run {
         Ok(r) => r,
         Err((sig, detail)) => {
-            if *end == RefEnd::Overflow {
+            if matches!(end, RefEnd::Overflow(_)) {
                 return Err(Outcome::violation(SIG_LEN_OVERFLOW, format!("[{how}] {detail}; the stream reaches a length field whose value + field width overflows usize")));
             }
             return Err(Outcome::violation(sig, format!("[{how}] {detail}")));
@@ -789,7 +848,7 @@ fn judge_hostile<T: PartialEq + Debug + AsBytesMaybe>(
             }
             (Got::IoErr(e), _) => {
                 // only legitimate at an unrepresentable length field, as the last event
-                if !(*end == RefEnd::Overflow && i == want.len()) {
+                if !(matches!(end, RefEnd::Overflow(_)) && i == want.len()) {
                     return Err(Outcome::violation(format!("C13/hostile/{k}/unexpected-io-error"), format!("[{how}] item {i}: {e}; stream {}", hex(stream))));
                 }
             }
@@ -814,11 +873,18 @@ fn judge_hostile<T: PartialEq + Debug + AsBytesMaybe>(
     Ok(run.got.len())
 }
 
-pub fn run_hostile(case: &HostileCase) -> Outcome {
+pub fn run_hostile(case: &HostileCase, excl: Excl) -> Outcome {
     let framer = &case.framer;
-    let stream = &case.stream;
-    let (ranges, end) = ref_parse(framer, stream);
     let mut labels: Vec<String> = vec![format!("framer:{}", framer.name()), format!("codec:{:?}", case.codec).to_lowercase()];
+    let mut stream = &case.stream[..];
+    let (mut ranges, mut end) = ref_parse(framer, stream);
+    if let (RefEnd::Overflow(at), true, false) = (&end, excl.len_overflow, case.strict) {
+        // known finding: keep everything before the unrepresentable length field, and one byte less
+        // than the field itself
+        stream = &case.stream[..*at + framer.width().unwrap() - 1];
+        (ranges, end) = ref_parse(framer, stream);
+        labels.push("excluded-known:len-overflow-header".into());
+    }
     let whole: Vec<Frag> = vec![];
     let mut items = 0;
     for (how, sched) in [("scheduled fragments", &case.rsched), ("delivered whole", &whole)] {
@@ -845,7 +911,7 @@ pub fn run_hostile(case: &HostileCase) -> Outcome {
             Err(o) => return o,
         }
     }
-    if end == RefEnd::Overflow {
+    if matches!(end, RefEnd::Overflow(_)) {
         labels.push("len-overflow-header(handled)".into());
     }
     if case.codec == CodecKind::Json {
